@@ -86,6 +86,11 @@ def same_grant(a, b):
 
 def trace_terms(recs, cfgs=None, permissive=False, pins_out=None):
     """recs: records of one script (Setup first). Returns (coq term of the segments, stats)."""
+    # permissive: False = the orders reconstructed from the call trace; 1 = allocations of one request sorted (no exclusive
+    # CPUs first), 2 = reinstated grants with exclusive CPUs first, 3 (or True) = both.  The implementation's order is a Go
+    # map order the trace shows only in part; the state after a group does not depend on it, only the tests on the way do.
+    pv = 3 if permissive is True else int(permissive or 0)
+    perm_alloc, perm_seg = bool(pv & 1), bool(pv & 2)
     cids = {}
     def cidx(c):
         return cids.setdefault(c, len(cids))
@@ -132,7 +137,7 @@ def trace_terms(recs, cfgs=None, permissive=False, pins_out=None):
             def depth(n, k=0):
                 return k if not par.get(n) else depth(par[n], k + 1)
             order = lambda i: (1 if grants[i]['exclusive'] else 0, -depth(grants[i]['pool']), last.get(i, -1), i)
-            if permissive:
+            if perm_seg:
                 # second opinion: since Reserve tests what the pools need (shortWithout), a grant that takes the last
                 # sharable CPUs of a pool passes only BEFORE the zero-request containers of that pool are reinstated;
                 # the capacity tests come to the same in both orders (the final state satisfies the capacity invariant)
@@ -153,7 +158,7 @@ def trace_terms(recs, cfgs=None, permissive=False, pins_out=None):
             touched = {call[1] for call in (rec.get('calls') or []) if call[0] in ('SetCPUShares', 'SetCpusetCpus', 'SetCpusetMems')} if rec['op'] in ('Synchronize', 'Reconfigure', 'Restart') else set()   # (with pinCPU off applyGrant only writes the memory pinning)
             rel = sorted(i for i in pg if i not in grants or not same_grant(pg[i], grants[i]) or i in touched)
             new = sorted((i for i in grants if i not in pg or not same_grant(pg[i], grants[i]) or i in touched), key=order)
-            if permissive:
+            if perm_alloc:
                 # second opinion when the order reconstructed from the call trace makes a capacity test fail:
                 # the state after the group does not depend on the order, only the tests on the way do
                 par = {p['name']: p['parent'] for p in ta['pools']}
